@@ -667,7 +667,7 @@ def inline_call(facts, v, depth=1):
     return subst(rv, params)
 
 
-def inline_all(facts, v, depth=3, stop=(), _seen=None, only=None):
+def inline_all(facts, v, depth=3, stop=(), _seen=None, only=None, loops_ok=False):
     """inline every call of a local, non-recursive function inside v (callee return value with arguments substituted), `depth`
     levels deep; calls whose callee name is in `stop` are kept.  Calls that cannot be resolved stay as they are."""
     _seen = _seen or ()
@@ -680,7 +680,7 @@ def inline_all(facts, v, depth=3, stop=(), _seen=None, only=None):
             f = x[1]
             if d > 0 and f.get('local') and f.get('name') not in stop and f.get('path') not in _seen and (only is None or only(f)):
                 target = facts.fn(f.get('path'))
-                if target is not None and not target.cfg.sccs():
+                if target is not None and (loops_ok or not target.cfg.sccs()):
                     pa = dict(enumerate(args, 1))
                     if '{closure#' in (f.get('path') or '') and len(args) == 2 and args[1][0] == 'agg' and args[1][1] == 'tuple':
                         items = args[1][-1]
@@ -688,7 +688,7 @@ def inline_all(facts, v, depth=3, stop=(), _seen=None, only=None):
                         for i, it in enumerate(items.values() if isinstance(items, dict) else items):
                             pa[i + 2] = it
                     rv = prov_of(target).return_value()
-                    return inline_all(facts, subst(rv, pa), d - 1, stop, _seen + (f.get('path'),), only)
+                    return inline_all(facts, subst(rv, pa), d - 1, stop, _seen + (f.get('path'),), only, loops_ok)
             return y
         if k == 'agg':
             return ('agg', x[1], x[2], x[3], {f: go(y, d) for f, y in x[4].items()})
